@@ -182,6 +182,34 @@ def run(chk):
     ok = bool(srt) and any(k.arg == "key" and "absolute_time" in u(k.value) for k in srt[0].keywords)
     chk.ob("O6.1", "batch sorted by absolute time", ok, srt[0] if srt else calc, "")
     lazy_batch_rule(chk, "O6.1", drv)
+    # every sample of the batch lands in its task's group, wherever it stands in the batch (samples of several tasks / workers are interleaved): the grouping loop appends each
+    # sample unconditionally; itertools.groupby only groups CONSECUTIVE elements and is accepted only over input sorted by the same key
+    sp = source.params_of(calc)[1]
+    gl = [n for n in walk_body(calc) if isinstance(n, ast.For) and u(n.iter) == sp and isinstance(n.target, ast.Name)]
+    ok = False
+    detail = "no loop over the batch that appends each sample to its task's group"
+    if gl:
+        sv_ = gl[0].target.id
+        gdefs = {n.targets[0].id: n.value for n in ast.walk(gl[0]) if isinstance(n, ast.Assign) and len(n.targets) == 1 and isinstance(n.targets[0], ast.Name)}
+        apps_ = [c for c in ast.walk(gl[0]) if isinstance(c, ast.Call) and last_attr(c.func) == "append" and c.args and u(c.args[0]) == sv_ and isinstance(c.func.value, ast.Subscript)]
+        ok = len(apps_) == 1 and not guards(apps_[0], stop=gl[0]) and source.inline(apps_[0].func.value.slice, gdefs) == f"{sv_}.task" \
+            and not any(isinstance(x, (ast.Break, ast.Continue, ast.Return)) for x in ast.walk(gl[0]))
+        detail = f"{short(apps_[0], 60)}" if apps_ else detail
+    gb = [c for c in walk_body(calc) if isinstance(c, ast.Call) and dotted(c.func) in ("itertools.groupby", "groupby")]
+    if gb and not ok:
+        srt_in = gb[0].args and isinstance(gb[0].args[0], ast.Call) and dotted(gb[0].args[0].func) == "sorted" and u(source.arg_of(gb[0].args[0], None, "key")) == u(source.arg_of(gb[0], 1, "key"))
+        ok = bool(srt_in)
+        detail = short(gb[0], 70) + ("" if ok else " — groupby over the batch in arrival order: a later run of the same task overwrites the earlier one, those samples are never counted")
+    chk.ob("O6.1", "grouping by task keeps every sample of the batch (interleaved tasks included)", ok, gl[0] if gl else (gb[0] if gb else calc), detail,
+           key=f"{_D}:ThroughputCalculator.calculate:grouping-keeps-every-sample")
+    # the per-task state (carried total, start time, sticky sample type) lives as long as the calculator: entries are created on first sight and never removed
+    rem = [n for f_ in drv.methods(TC).values() for n in walk_body(f_) if
+           (isinstance(n, ast.Delete) and any(isinstance(t, ast.Subscript) and is_self_attr(t.value, "task_stats") for t in n.targets)) or
+           (isinstance(n, ast.Call) and isinstance(n.func, ast.Attribute) and n.func.attr in ("pop", "popitem", "clear") and is_self_attr(n.func.value, "task_stats")) or
+           (isinstance(n, ast.Assign) and any(is_self_attr(t, "task_stats") for t in n.targets) and source.enclosing_func(n).name != "__init__")]
+    chk.ob("O6.1", "per-task state is never dropped while the calculator lives", not rem, rem[0] if rem else calc,
+           "" if not rem else f"`{short(rem[0], 60)}`: a task that pauses for one batch restarts from count 0 while its start time is kept: later values are (operations since the eviction) / (time since task start)",
+           key=f"{_D}:ThroughputCalculator:task-state-never-dropped")
 
     # ---- O6.2 monotone interval / safe division ------------------------------------------------------------------------------
     chk.rule("O6.2", "interval := max(t - start, interval); throughput is evaluated only under interval > 0", 3, "division by zero / negative or shrinking interval")
